@@ -242,7 +242,16 @@ func (vc *VC) execCall(x *ssa.Call, c *ssa.CallCommon, st *State, holder ssa.Val
 			binds[paramName(spec, sig, i)] = av
 		}
 	}
+	vc.closArgs = nil
+	for _, a := range c.Args {
+		if ci, ok := vc.clos[a]; ok {
+			if sp := vc.w.specFor(ci.fn); sp != nil && len(sp.Preserves) > 0 {
+				vc.closArgs = append(vc.closArgs, ci)
+			}
+		}
+	}
 	results := vc.applySpec(calleeName, spec, sig, binds, st, recv, argVals, pureKey)
+	vc.closArgs = nil
 	if x != nil {
 		n := sig.Results().Len()
 		switch {
@@ -391,10 +400,33 @@ func (vc *VC) applySpec(calleeName string, spec *FuncSpec, sig *types.Signature,
 		vc.oblige("call["+label+"].nopanic", "", reach, "(not "+f+")", "callee does not panic: !("+spec.Panics.Src+")")
 		vc.assumeIf(reach, "(not "+f+")")
 	}
+	// closures handed to the callee (a callback may invoke them any number of times): their invariants hold now ...
+	closEnv := func(ci *closureInfo, s *State) *Env {
+		b := map[string]SVal{}
+		for i, fv := range ci.fn.FreeVars {
+			b[fv.Name()] = SVal{t: ci.terms[i], typ: fv.Type(), sort: "Int", cellOf: derefType(fv.Type())}
+		}
+		return &Env{vc: vc, cur: s, old: s, vars: b, noFnNames: true, pkg: vc.specPkg(vc.w.specFor(ci.fn))}
+	}
+	for _, ci := range vc.closArgs {
+		ce := closEnv(ci, pre)
+		for i, c := range vc.w.specFor(ci.fn).Preserves {
+			f := ce.evalBool(c.E)
+			ce.flushSide(reach)
+			vc.oblige("call["+label+"].closure["+ci.fn.Name()+"].preserves", labelOr(c.Name, i), reach, f, c.Src)
+		}
+	}
 	// havoc the modifies set
 	var mls []modLoc
 	for _, m := range spec.Modifies {
 		mls = append(mls, env.evalLocs(m)...)
+	}
+	for _, ci := range vc.closArgs {
+		ce := closEnv(ci, pre)
+		for _, m := range vc.w.specFor(ci.fn).Modifies {
+			mls = append(mls, ce.evalLocs(m)...)
+		}
+		ce.flushSide(reach)
 	}
 	env.flushSide(reach)
 	for _, ml := range mls {
@@ -407,6 +439,16 @@ func (vc *VC) applySpec(calleeName string, spec *FuncSpec, sig *types.Signature,
 			}
 		}
 		callerEnv.flushSide(reach)
+	}
+	// ... and still hold after the callee returns (each invocation keeps them: proved in the closure's own check)
+	for _, ci := range vc.closArgs {
+		ce := closEnv(ci, st)
+		for _, c := range vc.w.specFor(ci.fn).Preserves {
+			f := ce.evalBool(c.E)
+			ce.flushSide(reach)
+			vc.assumeIf(reach, f)
+		}
+		vc.noteTrusted("callee " + calleeName + " is handed the closure " + ci.fn.Name() + ": assumed to touch the closure's captured variables only by invoking it, with arguments that meet its precondition")
 	}
 	if !spec.Pure {
 		a := vc.fresh("alloc", "Int")
@@ -888,6 +930,11 @@ func (vc *VC) execReturn(x *ssa.Return, st *State) {
 		f := env.evalBool(c.E)
 		env.flushSide(reach)
 		vc.oblige("ensures", labelOr(c.Name, i), reach, f, c.Src)
+	}
+	for i, c := range vc.spec.Preserves {
+		f := env.evalBool(c.E)
+		env.flushSide(reach)
+		vc.oblige("preserves", labelOr(c.Name, i), reach, f, c.Src)
 	}
 	if vc.spec.Panics != nil {
 		e0 := vc.entryEnv(vc.entry)
